@@ -59,3 +59,95 @@ package compression
 //@ func NewSnappyDecompressor
 //@   modifies nothing
 //@   ensures result != nil && decFormat(result) == 6
+
+// ---- thin wrappers: they delegate to the library instance they hold, and the states the
+// pools of the RPC library can put them in (closed, failed Reset) are all re-usable ----
+
+// zstd: Close drops the decoder (a closed zstd.Decoder cannot be reset), the next Reset
+// builds a new one; a Read on a closed instance reports EOF instead of crashing.
+//@ func (*zstdDecompressor).Read
+//@   requires c != nil
+//@   modifies []byte @ bytes
+//@   ensures 0 <= result_0 && result_0 <= len(bytes)
+//@   ensures c.decoder == nil ==> result_0 == 0 && result_1 == io.EOF
+//@ func (*zstdDecompressor).Reset
+//@   requires c != nil
+//@   modifies zstdDecompressor.decoder
+//@   ensures @usable result == nil ==> c.decoder != nil
+//@   ensures @kept old(c.decoder) != nil ==> c.decoder == old(c.decoder)
+//@ func (*zstdDecompressor).Close
+//@   requires c != nil
+//@   modifies zstdDecompressor.decoder
+//@   ensures result == nil && c.decoder == nil
+
+// deflate: every Reset installs a reader built from the new input only; after a failed
+// Reset the instance holds the sentinel that keeps reporting that error, and the next
+// successful Reset replaces it.
+//@ func (*deflateDecompressor).Read
+//@   requires c != nil
+//@   modifies []byte @ bytes, lastReadN, lastReadErr, lastReadArr
+//@   ensures 0 <= result_0 && result_0 <= len(bytes)
+//@   ensures c.reader == nil ==> result_0 == 0 && result_1 == io.EOF
+//@ func (*deflateDecompressor).Reset
+//@   requires c != nil
+//@   modifies deflateDecompressor.reader
+//@   ensures @installed c.reader != nil
+//@   ensures @sentinel result != nil ==> typeis(c.reader, *errorDecompressor) && unbox(c.reader, *errorDecompressor).err == result
+//@ func (*deflateDecompressor).Close
+//@   requires c != nil
+//@   modifies nothing
+//@   ensures c.reader == nil ==> result == nil
+
+//@ func (*snappyDecompressor).Read
+//@   requires c != nil && c.reader != nil
+//@   modifies []byte @ bytes
+//@   ensures 0 <= result_0 && result_0 <= len(bytes)
+//@ func (*snappyDecompressor).Reset
+//@   requires c != nil && c.reader != nil
+//@   modifies nothing
+//@   ensures result == nil
+//@ func (*snappyDecompressor).Close
+//@   modifies nothing
+//@   ensures result == nil
+//@ func (*brotliDecompressor).Read
+//@   requires c != nil && c.reader != nil
+//@   modifies []byte @ bytes
+//@   ensures 0 <= result_0 && result_0 <= len(bytes)
+//@ func (*brotliDecompressor).Reset
+//@   requires c != nil && c.reader != nil
+//@   modifies nothing
+//@ func (*brotliDecompressor).Close
+//@   modifies nothing
+//@   ensures result == nil
+
+// sentinels report their construction error on every use
+//@ func (*errorDecompressor).Read
+//@   requires c != nil
+//@   modifies nothing
+//@   ensures result_0 == 0 && result_1 == c.err
+//@ func (*errorDecompressor).Reset
+//@   requires c != nil
+//@   modifies nothing
+//@   ensures result == c.err
+//@ func (*errorCompressor).Write
+//@   requires c != nil
+//@   modifies nothing
+//@   ensures result_0 == 0 && result_1 == c.err
+
+// identity: Reset installs the destination itself (wrapped only to add a no-op Close)
+//@ func (*noOpCompressor).Reset
+//@   requires c != nil
+//@   modifies noOpCompressor.WriteCloser
+//@   ensures typeis(writer, io.WriteCloser) ==> c.WriteCloser == writer
+//@   ensures !typeis(writer, io.WriteCloser) ==> typeis(c.WriteCloser, *noOpCloser) && unbox(c.WriteCloser, *noOpCloser).Writer == writer
+//@ func (*noOpDecompressor).Reset
+//@   requires c != nil
+//@   modifies noOpDecompressor.ReadCloser
+//@   ensures result == nil
+//@   ensures typeis(reader, io.ReadCloser) ==> c.ReadCloser == reader
+//@ func (*noOpCloser).Close
+//@   modifies nothing
+//@   ensures result == nil
+
+// the IANA names of the formats (the constants Identity, Gzip, Brotli, Zstd, Deflate, Snappy)
+//@ spec compName(c int) string = c == 1 ? "identity" : (c == 2 ? "gzip" : (c == 3 ? "br" : (c == 4 ? "zstd" : (c == 5 ? "deflate" : (c == 6 ? "snappy" : "")))))
